@@ -167,3 +167,18 @@ pub fn has_odd_unit(ty: &Ty) -> bool {
         _ => false,
     }
 }
+
+/// The largest alignment unit of any zero-copy block a value of this type can
+/// contain (what the start address of a buffer must be a multiple of for
+/// ε-copy deserialisation to be possible for every value).
+pub fn max_unit(ty: &Ty) -> usize {
+    let own = if ty.is_zero() { unit(ty) } else { 1 };
+    let inner = match ty {
+        Ty::Phantom(_) => 1,
+        Ty::Vec(t) | Ty::BoxSlice(t) | Ty::Array(t, _) | Ty::Tuple(t, _) | Ty::Opt(t) | Ty::Range(_, t) | Ty::Bound(t) => max_unit(t),
+        Ty::Flow(b, c) => max_unit(b).max(max_unit(c)),
+        Ty::User(u) => u.variants.iter().flat_map(|v| v.fields.iter()).map(|f| max_unit(&f.ty)).max().unwrap_or(1),
+        _ => 1,
+    };
+    own.max(inner)
+}
